@@ -149,6 +149,15 @@ def run_history(desc):
   partial = False
   for i, op in enumerate(desc):
     name, n, seed = op[0], op[1], op[2]
+    if seed is None:
+      # an UNSEEDED call interleaved with the seeded ones: only its range is checked; it must not disturb
+      # the seeded results that follow (long-lived generator objects keep state between calls)
+      got = call(name, n, None)
+      if isinstance(got, bool) or not isinstance(got, int) or not (
+          0 <= got < (1 << n) or name.startswith('trunclcg')):
+        raise Violation('range-unseeded:' + family(name), name=name, n=n, got=repr(got)[:80])
+      cls.add('unseeded-call-interleaved')
+      continue
     got = call(name, n, seed)
     check_tolerating_f5(name, n, seed, got, known)
     key = (name, n, seed)
@@ -216,7 +225,8 @@ def strat_history(tier):
     pooled = st.sampled_from(pool)
     # mostly repetitions of pooled calls (in any order), some fresh calls in between
     least = draw(st.sampled_from([1, 2, 8, 16]))      # shrinks towards short histories
-    ops = draw(st.lists(st.one_of(pooled, pooled, pooled, op), min_size=least, max_size=28))
+    unseeded = st.tuples(st.sampled_from([o[0] for o in pool]), st.integers(1, 300), st.none())
+    ops = draw(st.lists(st.one_of(pooled, pooled, pooled, op, unseeded), min_size=least, max_size=28))
     return [list(o) for o in ops]
   return s()
 
@@ -383,7 +393,9 @@ def enum_neighbour_sizes(tier):
       seed = 23482349 + 1000003 * gi + 7919 * bi
       scr = [ns[(5 * i + 3) % len(ns)] for i in range(len(ns))]
       for order in (ns + ns[::-1], ns[::-1] + ns, scr + ns, ns + scr):
-        yield [[name, n, seed] for n in order]
+        ops = [[name, n, seed] for n in order]
+        ops.insert(len(ns), [name, 64, None])     # one unseeded call between the two passes
+        yield ops
 
 
 ARMS = [
